@@ -3,7 +3,7 @@
    and writes one JSON array per input to the file named by the environment variable OUT:
 
      [fn, base, delta, sec, nsec, now.up, now.mono, now.wall,
-      kind, clock, t, class, pinned, fixed]
+      kind, clock, t, class, pinned, fixed, dev]
 
    fn     0 dispatch_time  1 dispatch_walltime(&ts)  2 dispatch_walltime(NULL)  3 _dispatch_timeout
    kind   reference verdict: 0 exact  1 forever  2 any elapsed time on `clock`
@@ -12,6 +12,7 @@
           (fn = 3: the reference wait, 2^W for "for ever")
    class  0 none, 1.. the known-deviation classes in the order of ClassNames
    pinned/fixed  what the transcription of the pinned / of the repaired code returns
+   dev    1 if `pinned` does not meet the reference (a deviation of the pinned code), else 0
 
    Landmarks = TRUE restricts the inputs to k*2^(W-2)+o, |o| <= 7 (the rows that can be
    lifted to another width); FALSE enumerates everything (W = 8). *)
@@ -43,17 +44,19 @@ None == {"none"}
 RowTime(b, d, n) ==
   LET r == RefTime(b, d, n) IN
   <<0, b, d, 0, 0, n.up, n.mono, n.wall, KindId(r.kind), ClockId(r.clock), r.t,
-    ClassId(ClassTime(b, d, n)), DispatchTimeF(None, b, d, n), DispatchTimeF(AllFixes, b, d, n)>>
+    ClassId(ClassTime(b, d, n)), DispatchTimeF(None, b, d, n), DispatchTimeF(AllFixes, b, d, n),
+    IF RefOK(r, DispatchTimeF(None, b, d, n), n) THEN 0 ELSE 1>>
 
 RowWall(h, s, ns, d, n) ==
   LET r == RefWalltime(h, s, ns, d, n) IN
   <<IF h THEN 1 ELSE 2, 0, d, s, ns, n.up, n.mono, n.wall, KindId(r.kind), ClockId(r.clock), r.t,
     ClassId(ClassWalltime(h, s, ns, d, n)),
-    DispatchWalltimeF(None, h, s, ns, d, n), DispatchWalltimeF(AllFixes, h, s, ns, d, n)>>
+    DispatchWalltimeF(None, h, s, ns, d, n), DispatchWalltimeF(AllFixes, h, s, ns, d, n),
+    IF RefOK(r, DispatchWalltimeF(None, h, s, ns, d, n), n) THEN 0 ELSE 1>>
 
 RowTimeout(b, n) ==
   <<3, b, 0, 0, 0, n.up, n.mono, n.wall, IF RefElapsed(b, n) THEN 1 ELSE 0,
-    ClockId(RefClock(b)), RefWait(b, n), 0, TimeoutM(b, n), TimeoutM(b, n)>>
+    ClockId(RefClock(b)), RefWait(b, n), 0, TimeoutM(b, n), TimeoutM(b, n), 0>>
 
 \* The rows as sequences (functions over 1..N are built without the sorting and duplicate
 \* elimination a set of tuples would cost).
@@ -79,10 +82,8 @@ WallRows == [i \in 1 .. NS * NNS * ND * NWN |->
 NullRows == [i \in 1 .. ND * NN |-> RowWall(FALSE, 0, 0, DeltaSeq[Ix(i, NN, ND)], NowSeq[Ix(i, 1, NN)])]
 TimeoutRows == [i \in 1 .. NW * NN |-> RowTimeout(WordSeq[Ix(i, NN, NW)], NowSeq[Ix(i, 1, NN)])]
 
-\* Part = "time" | "wall" | "misc": which rows this run writes (the runs go in parallel)
-Rows == IF Part = "time" THEN TimeRows
-        ELSE IF Part = "wall" THEN WallRows
-        ELSE NullRows \o TimeoutRows
+\* Part = "time" | "wall": which rows this run writes (the runs go in parallel)
+Rows == IF Part = "time" THEN TimeRows \o NullRows \o TimeoutRows ELSE WallRows
 
 VARIABLE
   done
